@@ -1,7 +1,11 @@
 (* C15 -- generated accessors implement exactly the layout the schema declares.
    Statements only. [gen_accessor] is the Gallina mirror of what capnpc-go computes for a field
    (Layout.v (e)); Layout/GenCheck.v ties it to the code emitted by the current generator. *)
-From CV Require Import Layout.Layout Layout.BytesProofs Layout.LayoutProofs Layout.LayoutMain Layout.GenCheck.
+From CV Require Import Layout.Layout.
+From CV Require Import Layout.BytesProofs.
+From CV Require Import Layout.LayoutProofs.
+From CV Require Import Layout.LayoutMain.
+From CV Require Import Layout.GenCheck.
 From CV Require Import Gen.GenAccessors.
 Open Scope Z_scope.
 
